@@ -273,7 +273,7 @@ fn main() {
     // the top of the range in every tier: "up to the largest configurable sector or single-unit file" — units large enough
     // that a codec's internal block structure (bzip2's 100..900 kB blocks, LZMA dictionary, zlib window) is crossed
     for &(m, mname) in LOSSLESS {
-        for (bi, &(len, class)) in [(700_001usize, "text"), (1usize << 21, "half"), (1_300_000usize, "litruns"), ((1usize << 21) + 1, "text")].iter().enumerate() {
+        for (bi, &(len, class)) in [(700_001usize, "text"), (1usize << 21, "half"), (1_300_000usize, "litruns"), ((1usize << 21) + 1, "text"), (1usize << 22, "text"), ((1usize << 22) - 1, "half"), (5 * (1usize << 20) + 123, "half"), (1usize << 23, "text")].iter().enumerate() {
             let i = idx;
             idx += 1;
             if !run.want(i) {
@@ -281,6 +281,9 @@ fn main() {
             }
             if m == 0x08 && !thorough && bi >= 2 {
                 continue; // PKWare is slow; two large units per run in the quick tier
+            }
+            if bi >= 4 && !thorough && !matches!(m, 0x02 | 0x10 | 0x20) {
+                continue; // units of 4..8 MiB (sector shift 13 and up): zlib, bzip2, sparse in the quick tier, every codec in thorough
             }
             let mut rng = run.rng(i, 3);
             run.case(i, &format!("{mname}|{class}|large-unit"), json!({"selector": mname, "class": class, "len": len}), |c| {
@@ -389,6 +392,75 @@ fn main() {
                     };
                     c.count("triples", 1);
                     check_lossy(c, m, mname, &d, probe);
+                }
+            });
+        }
+    }
+    // a shared session is charged for what was decompressed: calls that pass the plausibility checks and then fail inside the
+    // codec produced nothing, so however many of them a session has seen, the compressor's own output is still accepted
+    {
+        let i = idx;
+        idx += 1;
+        if run.want(i) {
+            let mut rng = run.rng(i, 6);
+            run.case(i, "shared-session|failed-calls-then-own-output", json!({"what": "1300 calls on damaged 1 MiB units (and 14 on damaged units declaring 90 MiB) on one SessionTracker, then valid units of every lossless codec"}), |c| {
+                let st = SessionTracker::new();
+                let lim = SecurityLimits::default();
+                let d = gen_content(&mut rng, "text", 1 << 20);
+                let mut failed = 0u64;
+                let mut produced = 0u64;
+                for &m in &[0x02u8, 0x10] {
+                    let Ok(out) = compress(&d, m) else { continue };
+                    if out.len() >= d.len() || out[0] != m {
+                        continue;
+                    }
+                    let mut bad = out[1..].to_vec();
+                    let mid = bad.len() / 2;
+                    let end = mid + 64.min(bad.len() - mid);
+                    for b in bad[mid..end].iter_mut() {
+                        *b ^= 0xA5;
+                    }
+                    for round in 0..650 {
+                        // some of the damaged units declare a much larger size
+                        let declared = if round % 50 == 7 { 90 << 20 } else { d.len() };
+                        match trap(|| decompress_secure(&bad, m, declared, None, &st, &lim)) {
+                            Ok(Ok(b)) => produced += b.len() as u64,
+                            Ok(Err(_)) => failed += 1,
+                            Err(p) => {
+                                c.violate(format!("decompress-panic|shared-session|{}", p.sig()), format!("decompress_secure panicked on a damaged unit: {}", p.msg), json!({"round": round}));
+                                return;
+                            }
+                        }
+                    }
+                }
+                c.count("shared_session_failed_calls", failed);
+                c.count("shared_session_bytes_from_damaged_units", produced);
+                let (charged, _, _) = st.get_stats();
+                if charged > produced {
+                    c.violate("session-charged-for-failed-calls".to_string(), format!("after {failed} failed calls (and {produced} bytes actually returned) the session reports {charged} bytes decompressed"), json!({"failed": failed, "produced": produced, "charged": charged}));
+                }
+                if produced >= (1u64 << 30) - (8 << 20) {
+                    c.nontrivial = false; // the damaged units decoded after all: the cap may legitimately be reached
+                    return;
+                }
+                let v = gen_content(&mut rng, "text", 2 << 20);
+                for &(m, mname) in LOSSLESS {
+                    let Ok(out) = compress(&v, m) else { continue };
+                    if out.len() >= v.len() || out[0] != m {
+                        continue;
+                    }
+                    c.count("shared_session_valid_units", 1);
+                    match trap(|| decompress_secure(&out[1..], m, v.len(), None, &st, &lim)) {
+                        Ok(Ok(b)) if b == v => {}
+                        Ok(Ok(_)) => c.violate(format!("roundtrip-mismatch|{mname}|shared-session-after-failed-calls"), "wrong bytes".to_string(), json!({})),
+                        Ok(Err(e)) => c.violate(
+                            format!("own-output-rejected|{mname}|shared-session-after-failed-calls"),
+                            format!("after {failed} failed calls that produced nothing, the session refuses the compressor's own 2 MiB unit: {e}"),
+                            json!({"failed": failed, "charged": charged, "err": e.to_string()}),
+                        ),
+                        // (the same signature as on the one-call path: the PKWare decoder's panic is one defect, recorded there)
+                        Err(p) => c.violate(format!("decompress-panic|{mname}|{}", p.sig()), p.msg.clone(), json!({})),
+                    }
                 }
             });
         }
